@@ -17,6 +17,9 @@ use std::sync::Arc;
 pub enum HostKind {
     /// the `Command` itself, inspected with `effects()/events()/is_done()`; events fed back by hand
     Direct,
+    /// the `Command` polled as a `Stream` by a minimal executor of the harness that polls a command
+    /// only after its waker was used (manual stream polling: isolates the parent-wake path)
+    Stream,
     /// `Core<App>` through `process_event` / `resolve`
     Core,
     /// `Core<App>`, programs run through the legacy capability API
@@ -113,15 +116,27 @@ impl Byte {
     }
 }
 
+/// the waker handed to a manually polled command: remembers that it was used
+struct Flag(std::sync::atomic::AtomicBool);
+impl std::task::Wake for Flag {
+    fn wake(self: Arc<Self>) {
+        self.0.store(true, std::sync::atomic::Ordering::SeqCst);
+    }
+    fn wake_by_ref(self: &Arc<Self>) {
+        self.0.store(true, std::sync::atomic::Ordering::SeqCst);
+    }
+}
+
 enum Inner {
     Direct { roots: Vec<C>, model: Model, queue: VecDeque<Event> },
+    Streamed { roots: Vec<(Option<C>, Arc<Flag>)>, model: Model, queue: VecDeque<Event>, wakes: u64, polls: u64 },
     Typed(Core<App>),
     Byte(Byte),
 }
 
 pub struct Host {
     pub kind: HostKind,
-    uni: Arc<UniCtx>,
+    pub uni: Arc<UniCtx>,
     inner: Inner,
     /// typed hosts keep the request objects; byte hosts keep (id, op)
     typed: BTreeMap<Path, Request<Op>>,
@@ -140,6 +155,7 @@ impl Host {
     pub fn new(kind: HostKind, uni: Arc<UniCtx>) -> Self {
         let inner = match kind {
             HostKind::Direct => Inner::Direct { roots: vec![], model: Model::default(), queue: VecDeque::new() },
+            HostKind::Stream => Inner::Streamed { roots: vec![], model: Model::default(), queue: VecDeque::new(), wakes: 0, polls: 0 },
             HostKind::Core | HostKind::Legacy => Inner::Typed(Core::new()),
             HostKind::BridgeBincode => Inner::Byte(Byte::Bin(Bridge::new(Core::new()))),
             HostKind::BridgeJson => Inner::Byte(Byte::Json(BridgeWithSerializer::new(Core::new()))),
@@ -228,11 +244,63 @@ impl Host {
         all
     }
 
+    /// stream host: poll every command whose waker was used until it is pending again; apply the
+    /// events it yields (FIFO), which may create further commands; repeat until nothing is woken
+    fn settle_streamed(&mut self) -> Vec<Op> {
+        use futures::Stream;
+        use std::sync::atomic::Ordering::SeqCst;
+        let mut all = vec![];
+        loop {
+            let mut progressed = false;
+            let Inner::Streamed { roots, model, queue, wakes, polls } = &mut self.inner else { unreachable!() };
+            let mut effects = vec![];
+            for (slot, flag) in roots.iter_mut() {
+                if !flag.0.swap(false, SeqCst) {
+                    continue;
+                }
+                *wakes += 1;
+                let Some(cmd) = slot.as_mut() else { continue };
+                let waker = std::task::Waker::from(flag.clone());
+                let mut cx = std::task::Context::from_waker(&waker);
+                loop {
+                    *polls += 1;
+                    match std::pin::Pin::new(&mut *cmd).poll_next(&mut cx) {
+                        std::task::Poll::Ready(Some(crux_core::command::CommandOutput::Effect(e))) => effects.push(e),
+                        std::task::Poll::Ready(Some(crux_core::command::CommandOutput::Event(e))) => queue.push_back(e),
+                        std::task::Poll::Ready(None) => {
+                            *slot = None; // finished: a host drops the command
+                            break;
+                        }
+                        std::task::Poll::Pending => break,
+                    }
+                }
+                progressed = true;
+            }
+            let mut new_roots = vec![];
+            while let Some(ev) = queue.pop_front() {
+                progressed = true;
+                if let Some(c) = apply_event(&self.uni, model, ev) {
+                    new_roots.push((Some(compile(&c, &self.uni)), Arc::new(Flag(std::sync::atomic::AtomicBool::new(true)))));
+                }
+            }
+            roots.extend(new_roots);
+            all.extend(self.absorb_typed(effects));
+            if !progressed {
+                break;
+            }
+        }
+        all
+    }
+
     pub fn send(&mut self, ev: Event) -> Result<Obs, String> {
         let effects = match &mut self.inner {
             Inner::Direct { queue, .. } => {
                 queue.push_back(ev);
                 self.settle_direct()
+            }
+            Inner::Streamed { queue, .. } => {
+                queue.push_back(ev);
+                self.settle_streamed()
             }
             Inner::Typed(core) => {
                 let e = core.process_event(ev);
@@ -254,6 +322,11 @@ impl Host {
                 let Some(r) = self.typed.get_mut(path) else { return Err(format!("driver error: no request object for {path:?}")) };
                 let ok = r.resolve(out).is_ok();
                 Ok(Obs { effects: self.settle_direct(), resolve_ok: Some(ok) })
+            }
+            Inner::Streamed { .. } => {
+                let Some(r) = self.typed.get_mut(path) else { return Err(format!("driver error: no request object for {path:?}")) };
+                let ok = r.resolve(out).is_ok();
+                Ok(Obs { effects: self.settle_streamed(), resolve_ok: Some(ok) })
             }
             Inner::Typed(core) => {
                 let Some(r) = self.typed.get_mut(path) else { return Err(format!("driver error: no request object for {path:?}")) };
@@ -309,7 +382,7 @@ impl Host {
 
     pub fn view(&self) -> Result<Vec<Event>, String> {
         match &self.inner {
-            Inner::Direct { model, .. } => Ok(model.log.clone()),
+            Inner::Direct { model, .. } | Inner::Streamed { model, .. } => Ok(model.log.clone()),
             Inner::Typed(core) => Ok(core.view()),
             Inner::Byte(b) => b.view(),
         }
@@ -318,7 +391,7 @@ impl Host {
     /// tasks held by the core's executor (verif hook)
     pub fn executor_tasks(&self) -> Option<usize> {
         match &self.inner {
-            Inner::Direct { .. } => None,
+            Inner::Direct { .. } | Inner::Streamed { .. } => None,
             Inner::Typed(core) => Some(core.verif_executor_tasks()),
             Inner::Byte(Byte::Bin(b)) => Some(b.verif_core().verif_executor_tasks()),
             Inner::Byte(Byte::Json(b)) => Some(b.verif_core().verif_executor_tasks()),
@@ -782,5 +855,196 @@ pub fn run_case(u: &Universe, cfg: &CaseCfg) -> Result<CaseInfo, CaseFail> {
         }
     }
     drop(guard);
+    Ok(info)
+}
+
+// ------------------------------------------------------------------------------------------------
+// C05, model-free clause: the same program under the same schedule on several hosts
+
+#[derive(Debug, Default, Clone)]
+pub struct CrossInfo {
+    pub hosts: usize,
+    pub calls: usize,
+    pub max_outstanding: usize,
+    pub effects_total: usize,
+}
+
+/// Is the universe in the fragment for which every host must make the *same* observations at the
+/// same points? No cancellation from any side (an aborted root is cleared eagerly when inspected
+/// directly and lazily when hosted - both allowed, but observable through later resolutions), no
+/// event-triggered follow-up programs (their cap makes the cross-emitter event order matter).
+pub fn cross_comparable(u: &Universe) -> bool {
+    fn stmts_ok(t: &[Stmt]) -> bool {
+        t.iter().all(|s| match s {
+            Stmt::AbortT(_) | Stmt::AbortCmd(_) | Stmt::Export(_) => false,
+            Stmt::StreamLoop(_, b) | Stmt::Spawn(b) => stmts_ok(b),
+            Stmt::JoinN(bs) | Stmt::Select(bs) => bs.iter().all(|b| stmts_ok(b)),
+            _ => true,
+        })
+    }
+    fn ok(c: &Cmd) -> bool {
+        match c {
+            Cmd::Then(a, b) | Cmd::And(a, b) => ok(a) && ok(b),
+            Cmd::All(cs) | Cmd::Collect(cs) => cs.iter().all(ok),
+            Cmd::MapEvent(_, c) | Cmd::MapEffect(_, c) | Cmd::Abortable(_, c) => ok(c),
+            Cmd::WithSpawn(_, c, t) => ok(c) && stmts_ok(t),
+            Cmd::Async(_, t) => stmts_ok(t),
+            _ => true,
+        }
+    }
+    u.follow.is_none() && u.programs.iter().all(ok)
+}
+
+fn norm_view(v: Vec<Event>) -> Vec<Event> {
+    fn n(e: Event) -> Event {
+        match e {
+            Event::Start { prog, .. } => Event::Start { uni: 0, prog },
+            Event::Mapped(i, e) => Event::Mapped(i, Box::new(n(*e))),
+            e => e,
+        }
+    }
+    sorted(v.into_iter().map(n).collect())
+}
+
+/// Run one universe in lock step on `hosts` (no reference runtime involved) and compare, after
+/// every shell action, the effects returned (paths, kinds, `map_effect` marks), the result of the
+/// resolution, and the events applied so far (as a multiset). `drops`: the schedule's drops are
+/// performed (typed hosts only).
+pub fn run_cross(u: &Universe, hosts: &[HostKind], drops: bool) -> Result<CrossInfo, String> {
+    let mut u = u.clone();
+    crate::gen::sanitize(&mut u);
+    let u = &u;
+    let mut guards = vec![];
+    let mut hs: Vec<Host> = vec![];
+    for k in hosts {
+        let g = UniCtx::register(u, Sink::disabled(), *k == HostKind::Legacy);
+        hs.push(Host::new(*k, g.0.clone()));
+        guards.push(g);
+    }
+    let mut info = CrossInfo { hosts: hosts.len(), ..Default::default() };
+    let mut open: BTreeMap<Path, Op> = BTreeMap::new();
+    let mut answered: Vec<Path> = vec![];
+    let mut rank: BTreeMap<Path, usize> = BTreeMap::new();
+    let mut nonce = 0u32;
+    let mut steps: VecDeque<Step> = VecDeque::new();
+    steps.push_back(Step::Act(Act::Start(0)));
+    steps.extend(u.acts.iter().cloned().map(Step::Act));
+    let typed_only = hosts.iter().all(|k| !matches!(k, HostKind::BridgeBincode | HostKind::BridgeJson));
+    let mut events_seen = 0usize;
+    while let Some(step) = steps.pop_front() {
+        if events_seen > 30_000 || info.calls > 4_000 {
+            break;
+        }
+        let act = match step {
+            Step::Act(Act::Drain(n, pat)) => {
+                let mut seed = (pat as u32).wrapping_mul(2_654_435_761).wrapping_add(1);
+                for _ in 0..n {
+                    seed = seed.wrapping_mul(1_664_525).wrapping_add(1_013_904_223);
+                    steps.push_front(Step::DrainOne(pat, seed));
+                }
+                continue;
+            }
+            Step::DrainOne(pat, seed) => {
+                let cands: Vec<(&Path, usize)> = open.iter().filter(|(_, o)| o.kind != NOTE).map(|(p, _)| (p, rank.get(p).copied().unwrap_or(0))).collect();
+                if cands.is_empty() {
+                    continue;
+                }
+                let ix = match pat {
+                    0 => cands.iter().enumerate().min_by_key(|(_, c)| c.1).unwrap().0,
+                    1 => cands.iter().enumerate().max_by_key(|(_, c)| c.1).unwrap().0,
+                    _ => (seed >> 8) as usize % cands.len(),
+                };
+                Act::Resolve((((ix as u64) << 16).div_ceil(cands.len() as u64)).min(65535) as u16)
+            }
+            Step::Act(a) => a,
+        };
+        // what to do, decided once for all hosts
+        enum Do {
+            Send(bool, u16),
+            Resolve(Path, Out, bool),
+            Drop(Path),
+        }
+        let todo = match act {
+            Act::Start(p) => Do::Send(true, (p as usize % u.programs.len()) as u16),
+            Act::Noop => Do::Send(false, 0),
+            Act::Resolve(c) => {
+                let cands: Vec<&Path> = open.keys().filter(|p| open[*p].kind != NOTE).collect();
+                if cands.is_empty() {
+                    continue;
+                }
+                let path = cands[pick(c, cands.len())].clone();
+                nonce += 1;
+                Do::Resolve(path.clone(), Out::new(nonce), open[&path].kind == REQ)
+            }
+            Act::ResolveAgain(c) if typed_only => {
+                let mut cands: Vec<Path> = answered.clone();
+                cands.extend(open.keys().filter(|p| open[*p].kind == NOTE).cloned());
+                if cands.is_empty() {
+                    continue;
+                }
+                nonce += 1;
+                Do::Resolve(cands[pick(c, cands.len())].clone(), Out::new(nonce), false)
+            }
+            Act::Drop(c) if drops && typed_only => {
+                let cands: Vec<&Path> = open.keys().collect();
+                if cands.is_empty() {
+                    continue;
+                }
+                Do::Drop(cands[pick(c, cands.len())].clone())
+            }
+            _ => continue,
+        };
+        info.calls += 1;
+        let mut seen: Vec<(Vec<Op>, Option<bool>, Vec<Event>)> = vec![];
+        for h in hs.iter_mut() {
+            let obs = match &todo {
+                Do::Send(true, prog) => h.send(Event::Start { uni: h.uni.id, prog: *prog })?,
+                Do::Send(false, _) => h.send(Event::Noop)?,
+                Do::Resolve(path, out, one_shot) => h.resolve(path, out.clone(), *one_shot)?,
+                Do::Drop(path) => {
+                    h.drop_request(path);
+                    h.send(Event::Noop)?
+                }
+            };
+            seen.push((sorted(obs.effects), obs.resolve_ok, norm_view(h.view()?)));
+        }
+        for (k, s) in seen.iter().enumerate().skip(1) {
+            if s.0 != seen[0].0 {
+                return Err(format!("after {act:?} the {:?} host returned effects {:?}, the {:?} host {:?} (same program, same schedule)", hosts[0], seen[0].0, hosts[k], s.0));
+            }
+            if s.1 != seen[0].1 {
+                return Err(format!("after {act:?} the resolution was accepted = {:?} on the {:?} host and {:?} on the {:?} host", seen[0].1, hosts[0], s.1, hosts[k]));
+            }
+            if s.2 != seen[0].2 {
+                let (a, b) = (&seen[0].2, &s.2);
+                let only_a: Vec<&Event> = a.iter().filter(|e| !b.contains(e)).take(4).collect();
+                let only_b: Vec<&Event> = b.iter().filter(|e| !a.contains(e)).take(4).collect();
+                return Err(format!("after {act:?} the events applied so far differ between the {:?} host ({} events, e.g. only there: {only_a:?}) and the {:?} host ({} events, e.g. only there: {only_b:?})", hosts[0], a.len(), hosts[k], b.len()));
+            }
+        }
+        events_seen = seen[0].2.len();
+        info.effects_total += seen[0].0.len();
+        match todo {
+            Do::Resolve(path, _, one_shot) => {
+                if one_shot || seen[0].1 == Some(false) {
+                    if open.remove(&path).is_some() {
+                        answered.push(path);
+                    }
+                }
+            }
+            Do::Drop(path) => {
+                open.remove(&path);
+            }
+            Do::Send(..) => {}
+        }
+        for op in seen.swap_remove(0).0 {
+            let r = rank.len();
+            rank.insert(op.path.clone(), r);
+            open.insert(op.path.clone(), op);
+        }
+        info.max_outstanding = info.max_outstanding.max(open.values().filter(|o| o.kind != NOTE).count());
+    }
+    drop(hs);
+    drop(guards);
     Ok(info)
 }
